@@ -439,6 +439,24 @@ def worker_swap(case, led):
         moved = order != list(range(n))
         v = S.qnv_violations(mpo)
         led.check(not v, "post:Mpo.try_swap_site:qn_valid", "Mpo.try_swap_site", f"labels invalid after the swaps: {v[:1]}", key + ("qnv",), fields, rep, moved)
+        # the re-ordered operator is still an ordinary operator: label arrays keep their representation and it acts on a state of the new order
+        qs = len(np.asarray(mpo.qntot).reshape(-1))
+        badq = [j for j, q in enumerate(mpo.qn) if not (isinstance(q, np.ndarray) and q.ndim == 2 and q.shape == (mpo.bond_dims[j], qs))]
+        led.check(not badq, "post:Mpo.try_swap_site:bond_labels_stay_arrays", "Mpo.try_swap_site",
+                  f"bond labels {badq} are not (bond dimension x {qs}) integer arrays after the swaps: {[type(mpo.qn[j]).__name__ for j in badq]}", key + ("qnrep",), fields, rep, moved)
+        if moved and len(seq) <= 2:
+            try:
+                nmodel = mpo.model
+                qsel = sectors[int(rng.integers(len(sectors)))]
+                psi = fresh_state(nmodel, qsel, 3, rng)
+                if psi is not None:
+                    r = mpo.apply(psi)
+                    ok = close(S.dense(r), D_prev @ S.dense(psi), scale * max(1.0, amax(S.dense(psi)))) and not S.qnv_violations(r)
+                    led.check(ok, "post:Mpo.try_swap_site:reordered_operator_acts_on_states", "Mpo.apply",
+                              f"(re-ordered H) psi differs from the dense product or is mislabelled: {S.qnv_violations(r)[:1]}", key + ("apply",), dict(fields, via="apply"), rep)
+            except Exception as ex:
+                led.check(False, "post:Mpo.try_swap_site:reordered_operator_acts_on_states", "Mpo.apply",
+                          f"applying the re-ordered operator to a state raised {type(ex).__name__}: {ex}", key + ("apply",), dict(fields, via="apply", error=type(ex).__name__), rep)
         w1 = np.linalg.eigvalsh((D_prev + D_prev.conj().T) / 2)
         led.check(close(D_prev, D_prev.conj().T, scale) and close(w1, w0, scale), "post:Mpo.try_swap_site:spectrum_unchanged", "Mpo.try_swap_site",
                   f"spectrum moved by {amax(w1 - w0):.3e} (or the operator stopped being Hermitian)", key + ("spec",), fields, rep, moved)
